@@ -138,7 +138,36 @@ func runC43(c *Ctx) {
 			case *ssa.Parameter:
 				ok, detail = false, "the client's protocol is advertised unconditionally"
 			default:
-				if !strings.HasSuffix(PathOf(pv), "MaximumVersion.Protocol") {
+				// chosen by a helper (advertisedProtocol(protocol)): each return is the client's protocol
+				// behind Supported() == true, or the maximum version
+				if hc, isC := strip(pv).(*ssa.Call); isC && moduleHelperWithBody(&hc.Call) != nil {
+					g := moduleHelperWithBody(&hc.Call)
+					c.Analysed(g)
+					res := make([]ssa.Value, len(hc.Call.Args))
+					for i, a := range hc.Call.Args {
+						res[i] = strip(a)
+					}
+					nRet := 0
+					withBinding(g, res, func() {
+						for _, hr := range successReturns(g) {
+							if len(hr.Results) != 1 {
+								continue
+							}
+							nRet++
+							rv := hr.Results[0]
+							if strip(rv) == ssa.Value(param) {
+								if gd, ns := MustCross(hr, isSupportedTrue); !gd || ns == 0 {
+									ok, detail = false, "the client's protocol is returned by "+g.Name()+" without passing the Supported() == true edge"
+								}
+							} else if !strings.HasSuffix(PathOf(rv), "MaximumVersion.Protocol") {
+								ok, detail = false, "fallback protocol is not version.MaximumVersion.Protocol: "+PathOf(rv)
+							}
+						}
+					})
+					if nRet == 0 {
+						ok, detail = false, "protocol helper has no return"
+					}
+				} else if !strings.HasSuffix(PathOf(pv), "MaximumVersion.Protocol") {
 					ok, detail = false, "unexpected protocol source "+PathOf(pv)
 				}
 			}
@@ -188,7 +217,7 @@ func runC43(c *Ctx) {
 			if !isRecv(cond) || !truth {
 				continue
 			}
-			isClose := func(in ssa.Instruction) bool { cc := callOf(in); return cc != nil && methodName(cc) == "Close" }
+			isClose := closesConn
 			first := e.To().Instrs[0]
 			miss := false
 			if !isClose(first) {
@@ -228,7 +257,7 @@ func runC43(c *Ctx) {
 		if !closed {
 			// or explicit Close on every path
 			first := hp.Blocks[0].Instrs[0]
-			miss, _ := MayReachExitWithout(first, func(in ssa.Instruction) bool { cc := callOf(in); return cc != nil && methodName(cc) == "Close" })
+			miss, _ := MayReachExitWithout(first, closesConn)
 			closed = !miss
 		}
 		c.CheckAt("echo-closes", "Close@handleStatusPing", c.P.Pos(hp.Pos()), closed, "the connection must be closed after the ping echo on every path")
@@ -252,7 +281,7 @@ func runC43(c *Ctx) {
 				return false
 			}
 			m := methodName(cc)
-			if m == "Close" {
+			if m == "Close" || closesConn(in) {
 				return true
 			}
 			for _, x := range h.handlers {
@@ -296,4 +325,27 @@ func runC43(c *Ctx) {
 			c.Check("login-supported", "SetActiveSessionHandler@handleLogin", ci, g && n > 0, "login proceeds for a protocol the proxy does not support")
 		}
 	}
+}
+
+// closesConn: the instruction closes the connection — a Close() call, or a call of an unexported
+// helper of the module every path of which does (h.closeConn()).
+func closesConn(in ssa.Instruction) bool {
+	cc := callOf(in)
+	if cc == nil {
+		return false
+	}
+	if methodName(cc) == "Close" {
+		return true
+	}
+	g := moduleHelperWithBody(cc)
+	if g == nil || !isUnexportedHelper(g) || len(g.Blocks) == 0 || len(g.Blocks[0].Instrs) == 0 {
+		return false
+	}
+	isClose := func(x ssa.Instruction) bool { c2 := callOf(x); return c2 != nil && methodName(c2) == "Close" }
+	first := g.Blocks[0].Instrs[0]
+	if isClose(first) {
+		return true
+	}
+	miss, _ := MayReachExitWithout(first, isClose)
+	return !miss
 }
